@@ -65,6 +65,23 @@ def _new_game(rng):
     return g, Shadow(b''.join(regions[n] for n, _ in REGIONS))
 
 
+def swap_section(g, rng):
+    from pico8.gfx.gfx import Gfx
+    from pico8.gff.gff import Gff
+    from pico8.map.map import Map
+    from pico8.sfx.sfx import Sfx
+    from pico8.music.music import Music
+    name = rng.choice(('gfx', 'gff', 'map', 'sfx', 'music'))
+    cur = bytes(getattr(g, name).to_bytes())
+    if name == 'gfx':
+        g.gfx = Gfx.from_bytes(cur, version=8)
+        g.map = Map.from_bytes(bytes(g.map.to_bytes()), version=8, gfx=g.gfx)
+    elif name == 'map':
+        g.map = Map.from_bytes(cur, version=8, gfx=g.gfx)
+    else:
+        setattr(g, name, {'gff': Gff, 'sfx': Sfx, 'music': Music}[name].from_bytes(cur, version=8))
+
+
 def do_write(ctx, g, sh, start, data, tag):
     """Apply one write to game and shadow; compare.  Returns False if the game is now corrupt."""
     n = len(data)
@@ -160,6 +177,11 @@ def run_shard(spec, ctx):
                 if not do_write(ctx, g, sh, s, data, 'history'):
                     break
                 ctx.feature('history_steps')
+                if rng.random() < 0.15:
+                    # the library allows a section object to be replaced (build does it with setattr); later writes must
+                    # land in the cart's current sections
+                    swap_section(g, rng)
+                    ctx.feature('section_object_replaced')
             ctx.feature('histories')
     elif kind == 'reject':
         for _ in range(spec['count']):
@@ -188,6 +210,8 @@ def gates(m, tier):
     for k in (1, 2, 3, 4, 5):
         if f.get('regions_spanned_%d' % k, 0) < 3:
             missed.append('no write spanning %d regions' % k)
+    if f.get('section_object_replaced', 0) < 20:
+        missed.append('section objects replaced only %d times' % f.get('section_object_replaced', 0))
     if mon.get('region_comparisons', 0) < 1000:
         missed.append('monitor saw too few comparisons')
     return missed
